@@ -395,6 +395,26 @@ def _text_cases(ctx):
     outs = {"zeta": a + 1, "alpha": a * 2, "mid": a - 3}
     for perm in itertools.permutations(outs):
         yield "outputs:" + ",".join(perm), pt.make_dict_of_named_arrays({k: outs[k] for k in perm})
+    # every form of subscript: slices of either sign (re-synthesis), dropped trailing slices, integers,
+    # contiguous / non-contiguous advanced indices, advanced indices separated by an ellipsis for no axis
+    x3 = pt.make_placeholder("x", (4, 5, 6), np.float64)
+    y2 = pt.make_placeholder("y", (4, 5), np.float64)
+    i1 = pt.make_placeholder("i1", (3,), np.int64)
+    i2 = pt.make_placeholder("i2", (3,), np.int64)
+    forms = {
+        "neg-step-empty": lambda: x3[-10::-1], "neg-step": lambda: x3[::-1, 3:0:-2], "full-neg": lambda: x3[::-1, ::-1, ::-1],
+        "trailing-dropped": lambda: x3[1:3], "middle": lambda: x3[:, 1:3], "ints": lambda: x3[1, -1, 2],
+        "int-slice": lambda: x3[-1, 1:-1], "all-trivial": lambda: x3[:, :, :], "clipped": lambda: x3[-100:100, 7:2],
+        "contig": lambda: x3[i1, i2], "contig-mid": lambda: x3[:, i1, i2], "noncontig": lambda: x3[i1, :, i2],
+        "noncontig-int": lambda: x3[i1, 1:3, 2], "ellipsis-no-axis": lambda: y2[i1, ..., i2],
+        "ellipsis-no-axis-then-slice": lambda: x3[i1, ..., i2, 1:3], "ellipsis-no-axis-int": lambda: y2[1, ..., i2],
+        "slice-then-ellipsis-no-axis": lambda: x3[:, i1, ..., i2], "index-of-index": lambda: x3[i1, i2][::-1, 2],
+    }
+    for fl, mk in forms.items():
+        try:
+            yield "subscript:" + fl, mk()
+        except Exception:   # noqa: BLE001
+            continue
     for label, il in c19.near_misses(ctx):
         yield "near-miss:" + label, il
     with np.errstate(all="ignore"):
